@@ -81,20 +81,29 @@ def fold_at_call_sites(model: Model, folder: Folder, fi, expr: ast.expr, self_cl
             if not hit:
                 continue
             n_sites += 1
-            env = {}
+            envs = [{}]
             for p_ in used:
                 i = ps.index(p_) - off
                 a = n.args[i] if i < len(n.args) else next((k.value for k in n.keywords if k.arg == p_), None)
                 if a is None:
                     return None
+                if isinstance(a, ast.Name) and a.id in ("self", "cls") and cfi.cls is not None and cfi.params() and cfi.params()[0] == a.id:
+                    # the caller hands over the object it is a method of: one binding per concrete class that runs this method
+                    from ..fold import SelfRef
+                    ks = [c_ for c_ in model.subclasses(cfi.cls) if model.find_method(c_, cfi.name) is cfi] or [cfi.cls]
+                    envs = [dict(e_, **{p_: SelfRef(c_)}) for e_ in envs for c_ in ks]
+                    continue
                 try:
-                    env[p_] = folder.fold(a, cfi.module, None, cfi.cls if f and isinstance(f, ast.Attribute) else None)
+                    val = folder.fold(a, cfi.module, None, cfi.cls if f and isinstance(f, ast.Attribute) else None)
                 except Unfoldable:
                     return None
-            try:
-                vals.append(folder.fold(expr, fi.module, env, self_cls))
-            except Unfoldable:
-                return None
+                for e_ in envs:
+                    e_[p_] = val
+            for env in envs:
+                try:
+                    vals.append(folder.fold(expr, fi.module, env, self_cls))
+                except Unfoldable:
+                    return None
     return vals if n_sites else None
 
 
